@@ -1,3 +1,4 @@
+#define HV_EIGEN_ASSERT_THROWS
 // C19 numeric harness on the real library: for random host sizes / block offsets / stratified tangent vectors,
 // every sparse routine must leave in its block exactly the dense values, leave every other stored entry
 // untouched (sentinels), never change the structure arrays and keep the matrix compressed.
@@ -192,7 +193,9 @@ void run(const char * gname, Rng & rng, int n)
   }
 }
 
-int main()
+static int hv_main();
+int main() { return hv::guard(hv_main); }
+static int hv_main()
 {
   Report rep;
   rep.property = "C19";
